@@ -76,6 +76,10 @@ Definition ok_special (c : ctx_table) (acc : aexp) (n : name) : bool :=
 Definition ok_register (c : ctx_table) (r : name) : bool :=
   opt_str_eqb (memoize c r) (Some r) && (count r (ct_registers c) =? 1).
 
+Definition src_is_list (s : names_src) (l : list name) : bool :=
+  match s with NList l' => strs_eqb l' l | NSet => false end.
+Definition src_is_set (s : names_src) : bool := match s with NSet => true | NList _ => false end.
+
 Definition has_upper (n : name) : bool := existsb (fun b => (65 <=? b) && (b <=? 90)) n.
 
 Definition diagnose (c : ctx_table) : list (name * string * name) :=
@@ -120,7 +124,19 @@ Definition diagnose (c : ctx_table) : list (name * string * name) :=
   diag c "default_memoize_register does not compare names exactly: a spelling set_register / get_register_always do not know (they match string literals) would be reported present"%string
        (fun _ => ct_memo_cmp c =? 0) [ct_name c] ++
   diag c "a register name or alias contains an upper-case ASCII letter"%string
-       (fun n => negb (has_upper n)) (accepted c).
+       (fun n => negb (has_upper n)) (accepted c) ++
+  diag c "memoize_register's default (default_memoize_register(<T>::REGISTERS, reg)) searches another table than this type's REGISTERS"%string
+       (fun _ => strs_eqb (ct_memo_tbl c) (ct_registers c)) [ct_name c] ++
+  diag c "CpuContext::valid_registers / registers under validity All does not iterate exactly this type's REGISTERS"%string
+       (fun _ => src_is_list (ct_iter_all c) (ct_registers c)) [ct_name c] ++
+  diag c "CpuContext::valid_registers under Some(valid) does not iterate the members of the set"%string
+       (fun _ => src_is_set (ct_iter_some c)) [ct_name c] ++
+  diag c "CpuRegisters::next skips names (nth instead of next) or pairs a name with something else than get_register_always(name)"%string
+       (fun _ => (ct_next_slice c =? 0) && (ct_next_set c =? 0) && plain_var (ct_next_val c) v_ga) [ct_name c] ++
+  diag c "MinidumpContext::registers does not pair each name with get_register_always(name) unchanged"%string
+       (fun _ => plain_var (ct_md_regs_val c) v_mga) [ct_variant c] ++
+  diag c "MinidumpContext::register_size is not size_of::<Register>() of this variant's type"%string
+       (fun _ => plain_var (ct_md_size c) v_size) [ct_variant c].
 
 (* for reading a diagnosis: names back to text *)
 Definition show (n : name) : string :=
